@@ -214,6 +214,33 @@ func TestC03_ForEnum(t *testing.T) {
 			}
 		}
 	}
+	// float and descending/compound loop variables
+	for _, f := range []struct{ init, cond, post string }{
+		{"0.5", "f < 3.0", "f++"}, {"2.5", "f > 0.0", "f--"}, {"0.5", "f < 2.5", "f + 0.5"}, {"1", "f < 40", "f * 3"}, {"20", "f > 2", "f / 2"}, {"\"a\"", "f != \"aaaa\"", "f + \"a\""},
+	} {
+		src := "<<@for(f = " + f.init + "; " + f.cond + "; " + f.post + ")({{ f }})@else NEVER@end>>"
+		var prog []*tw.Stmt
+		initE, _ := tw.ParseTokens(strings.Fields(f.init))
+		condE, _ := tw.ParseTokens(strings.Fields(f.cond))
+		postE, _ := tw.ParseTokens(strings.Fields(f.post))
+		if initE == nil || condE == nil || postE == nil {
+			continue
+		}
+		fixLits(initE)
+		fixLits(condE)
+		fixLits(postE)
+		prog = []*tw.Stmt{tw.Text("<<"), {Kind: tw.SFor, Name: "f", Init: initE, Cond: condE, Post: postE, Body: []*tw.Stmt{tw.Text("("), tw.Print(tw.Var("f")), tw.Text(")")}, HasElse: true, Else: []*tw.Stmt{tw.Text(" NEVER")}}, tw.Text(">>")}
+		out, _ := in.Render(prog, nil)
+		cs := renderCase{Src: src, Want: wantFromOut(out), Note: "non-integer loop variable"}
+		if out.St != refint.OK {
+			// floats inside a longer output are compared only where their text is settled
+			cs.Want = want{St: "unspecified"}
+		}
+		c.CaseEnum(true, "for:non-int")
+		if r, fl := runRenderCase(c, cs); fl != "" {
+			c.Fail(t, failKind(r), cs, cs.Want, r, fl)
+		}
+	}
 	c.ExhaustivePart("a, b in -3..3 x 5 operators x 5 control variants x else/no else")
 }
 
@@ -348,4 +375,20 @@ func TestC03_RandomPrograms(t *testing.T) {
 			c.Fail(rt, failKind(r), cs, cs.Want, r, f)
 		}
 	})
+}
+
+// fixLits fills in the values of literals parsed by the reference parser.
+func fixLits(e *tw.Expr) {
+	if e == nil {
+		return
+	}
+	switch e.Kind {
+	case tw.EInt:
+		fmt.Sscan(e.Text, &e.Int)
+	case tw.EFloat:
+		fmt.Sscan(e.Text, &e.Float)
+	}
+	for _, k := range e.Kids {
+		fixLits(k)
+	}
 }
